@@ -178,3 +178,66 @@ Lemma segment_clean_l s :
 Proof.
   intros H Hs. rewrite (clean_spec_u_l s H). apply segment_join; [apply words_ok|exact Hs].
 Qed.
+
+(** * ... and exactly then: the condition is necessary as well *)
+Lemma segment_word_space w1 c t :
+  w1 <> [] -> is_prepend (last w1 32) = false -> ws_joinable c = false ->
+  segment (w1 ++ 32 :: c :: t) = segment w1 ++ [32] :: segment (c :: t).
+Proof.
+  intros Hne Hp Hj. rewrite (app_removelast_last 32 Hne) at 1.
+  rewrite (any_break_before_l (removelast w1) (last w1 32) 32 (c :: t) eq_refl Hp).
+  rewrite <- (app_removelast_last 32 Hne). rewrite space_then_other_eq_l, Hj. reflexivity.
+Qed.
+
+Lemma last_in {A} (l : list A) d : l <> [] -> In (last l d) l.
+Proof.
+  induction l as [|x l IH]; [congruence|]. intros _. destruct l as [|y l]; [left; reflexivity|].
+  right. apply IH. discriminate.
+Qed.
+
+Lemma nonws_in w x : forallb nonws_cp w = true -> In x w -> is_ws x = false.
+Proof.
+  intros H Hx. rewrite forallb_forall in H. specialize (H x Hx). unfold nonws_cp in H.
+  apply negb_true_iff in H. exact H.
+Qed.
+
+Lemma no_mixedb_word w : forallb nonws_cp w = true -> no_mixedb w = true.
+Proof.
+  intros H. unfold no_mixedb. rewrite forallb_forall. rewrite <- Forall_forall.
+  apply segment_word_nomixed. exact H.
+Qed.
+
+Lemma no_mixedb_join_eq W : Forall cwordok W -> no_mixedb (join [32] W) = seams_ok W.
+Proof.
+  induction W as [|w1 R IH]; intros Hok; [reflexivity|].
+  inversion Hok as [|? ? [Hne1 Hn1] HokR]; subst. specialize (IH HokR).
+  destruct R as [|w2 R'].
+  - cbn [join seams_ok]. apply no_mixedb_word. exact Hn1.
+  - inversion HokR as [|? ? [Hne2 Hn2] _]; subst.
+    unfold str, cp in *. rewrite (@join_cons N [32] w1 (w2 :: R')) by discriminate.
+    destruct w2 as [|c w2']; [exfalso; apply Hne2; reflexivity|].
+    destruct (join_hd R' (c :: w2') c w2' eq_refl) as (t & Et). rewrite Et in *.
+    cbn [seams_ok hd]. cbn [app]. unfold str, cp in *.
+    destruct (is_prepend (last w1 32)) eqn:Hp.
+    + cbn [negb andb]. rewrite (app_removelast_last 32 Hne1).
+      apply no_mixedb_nobreak_l.
+      * unfold break_after. rewrite state_of_snoc. cbn [fst snd]. apply pair_nobreak. right.
+        unfold is_prepend in Hp. change (gcb 32) with GC_Any.
+        destruct (gcb (last w1 32)); try discriminate Hp. reflexivity.
+      * rewrite (nonws_in w1 _ Hn1 (last_in w1 32 Hne1)). reflexivity.
+    + destruct (ws_joinable c) eqn:Hj.
+      * cbn [negb andb]. change (w1 ++ 32 :: c :: t) with (w1 ++ [32] ++ c :: t). rewrite app_assoc.
+        apply no_mixedb_nobreak_l.
+        -- unfold break_after. rewrite state_of_snoc. cbn [fst snd]. change (gcb 32) with GC_Any.
+           rewrite (advance_any _ 32 eq_refl), is_break_after_any.
+           unfold ws_joinable in Hj. destruct (gcb c); try discriminate Hj; reflexivity.
+        -- rewrite (nonws_in (c :: w2') c Hn2 (or_introl eq_refl)). reflexivity.
+      * cbn [negb andb]. unfold no_mixedb in *. rewrite (segment_word_space w1 c t Hne1 Hp Hj).
+        rewrite forallb_app. cbn [forallb]. rewrite IH.
+        pose proof (no_mixedb_word w1 Hn1) as Hw. unfold no_mixedb in Hw. rewrite Hw. reflexivity.
+Qed.
+
+(** for a text without mixed clusters: the cleaned text has a mixed cluster (the KF1 class of
+    the harness) exactly when the text is not seam-free *)
+Lemma clean_mixed_iff_l s : no_mixedb s = true -> no_mixedb (clean (segment s)) = seam_free s.
+Proof. intros H. rewrite (clean_spec_u_l s H). apply no_mixedb_join_eq, words_ok. Qed.
